@@ -65,15 +65,32 @@ Proof. exact merges_on_plain_ok. Qed.
 Print Assumptions C09_merges_on_plain_ok_partial.
 
 (* the full property is false of the faithful model once a table contains merges: the known findings *)
+(* the column edits address physical cells: after a horizontal merge the new column is not one column of the grid
+   (in row 1 it stands behind the merged cell, one grid column further right than in rows 0 and 2) *)
 Theorem C09_refuted_insert_column_after_hmerge :
-  match after [MergeH 1 0 2] t33 with Some t => step t (InsertColumn 3 [] 1000%N) = Panic | None => False end.
+  match after [MergeH 1 0 1; InsertColumn 1 [5; 5; 5]%N 1000%N] t33 with
+  | Some t => map (fun rw => row_width (firstn 1 rw)) (rows t) = [1; 2; 1] | None => False end.
 Proof. exact refuted_insert_column_after_hmerge. Qed.
 Print Assumptions C09_refuted_insert_column_after_hmerge.
 
+(* deleting physical cell 0 of every row removes one grid column in rows 0 and 2 and two in row 1 *)
 Theorem C09_refuted_delete_column_after_hmerge :
-  match after [MergeH 1 0 1] t33 with Some t => step t (DeleteColumn 2) = Panic | None => False end.
+  match after [MergeH 1 0 1; DeleteColumn 0] t33 with Some t => grid_inv t = false | None => False end.
 Proof. exact refuted_delete_column_after_hmerge. Qed.
 Print Assumptions C09_refuted_delete_column_after_hmerge.
+
+(* but no column edit panics, whatever the table (any grid definition, rows of different lengths, merges): on a row
+   that is shorter because of a merge the edit is refused with the table unchanged (repaired) *)
+Theorem C09_column_edit_never_panics : forall t o, is_column_edit o = true -> step t o <> Panic.
+Proof. exact column_edit_never_panics. Qed.
+Print Assumptions C09_column_edit_never_panics.
+
+Theorem C09_column_edit_refused_on_short_row :
+  match after [MergeH 1 0 2] t33 with
+  | Some t => step t (InsertColumn 3 [] 1000%N) = Err /\ step t (DeleteColumn 2) = Err /\ step t (DeleteColumns 1 2) = Err
+  | None => False end.
+Proof. exact column_edit_refused_on_short_row. Qed.
+Print Assumptions C09_column_edit_refused_on_short_row.
 
 Theorem C09_refuted_insert_row_after_hmerge :
   match after [MergeH 0 0 1; InsertRow 1 []] t33 with Some t => grid_inv t = false | None => False end.
